@@ -10,15 +10,18 @@ package main
 // at both clock readings and the property on the implementation's answer.
 
 import (
+	"context"
 	"crypto/ecdsa"
 	"crypto/elliptic"
 	crand "crypto/rand"
 	"crypto/x509"
 	"encoding/json"
+	"errors"
 	"fmt"
 	"math"
 	"math/big"
 	"math/rand"
+	"sync"
 	"time"
 
 	"github.com/caddyserver/certmagic"
@@ -33,6 +36,7 @@ func init() { register("C04", runC04) }
 type c04CfgKey struct {
 	ratio   float64
 	disable bool
+	refresh bool // Config with the renewal-info issuer double (ari-refresh cases)
 }
 
 const c04Sec = int64(time.Second)
@@ -64,7 +68,48 @@ type c04Case struct {
 	// future, from the case's own numbers, so that a replay uses the same), ExplanationURL set or not
 	RA    *int64 `json:"ari_retry_after_off_ns,omitempty"`
 	RAFix bool   `json:"ari_retry_after_fixed,omitempty"`
+	// ari-refresh cases: Sel/WS/WE above are the OLD info of a managed certificate (stored + cached);
+	// the issuer double answers Refresh's info, the real updateARI runs, and the decision is taken on
+	// the copy named by Refresh.Target
+	Refresh  *c04Refresh `json:"ari_refresh,omitempty"`
 	Base     int64  `json:"base_unix_ns"`
+}
+
+type c04Refresh struct {
+	Target int    `json:"target"` // 0 returned certificate, 1 cache entry, 2 stored resource
+	Sel    *int64 `json:"fresh_selected_off_ns"`
+	WS     *int64 `json:"fresh_window_start_off_ns"`
+	WE     *int64 `json:"fresh_window_end_off_ns"`
+	Name   string `json:"name"`
+}
+
+// c04AriIssuer is an issuer that only answers renewal-information requests (certmagic.RenewalInfoGetter).
+type c04AriIssuer struct {
+	mu     sync.Mutex
+	answer acme.RenewalInfo
+	calls  int
+}
+
+func (*c04AriIssuer) Issue(context.Context, *x509.CertificateRequest) (*certmagic.IssuedCertificate, error) {
+	return nil, errors.New("c04: issuance is not part of this check")
+}
+func (*c04AriIssuer) IssuerKey() string { return "c04-ari-ca" }
+func (i *c04AriIssuer) GetRenewalInfo(context.Context, certmagic.Certificate) (acme.RenewalInfo, error) {
+	i.mu.Lock()
+	defer i.mu.Unlock()
+	i.calls++
+	return i.answer, nil
+}
+func (i *c04AriIssuer) set(a acme.RenewalInfo) int {
+	i.mu.Lock()
+	defer i.mu.Unlock()
+	i.answer = a
+	return i.calls
+}
+func (i *c04AriIssuer) count() int {
+	i.mu.Lock()
+	defer i.mu.Unlock()
+	return i.calls
 }
 
 func floorDiv(a, b int64) int64 {
@@ -179,6 +224,8 @@ type c04h struct {
 	cmp    int
 	orcBad []string
 	nOrc   int
+	ariIss *c04AriIssuer
+	nRefr  int
 }
 
 func p64(v int64) *int64 { return &v }
@@ -251,10 +298,14 @@ func (h *c04h) run(c c04Case, desc map[string]any) {
 	// the configuration goes through the library's own constructor (certmagic.New), as an application's
 	// does: whatever New does to the configured ratio is part of the behaviour under test (the model takes
 	// the ratio AS CONFIGURED: 0 = default, (0,1] as given)
-	ck := c04CfgKey{ratio, c.Disable}
+	ck := c04CfgKey{ratio, c.Disable, c.Refresh != nil}
 	cfg, ok := h.cfgs[ck]
 	if !ok {
-		cfg = certmagic.New(h.cache, certmagic.Config{Storage: h.cfg.Storage, Logger: h.cfg.Logger, RenewalWindowRatio: ratio, DisableARI: c.Disable})
+		tmpl := certmagic.Config{Storage: h.cfg.Storage, Logger: h.cfg.Logger, RenewalWindowRatio: ratio, DisableARI: c.Disable}
+		if c.Refresh != nil {
+			tmpl.Issuers = []certmagic.Issuer{h.ariIss}
+		}
+		cfg = certmagic.New(h.cache, tmpl)
 		if h.cfgs == nil {
 			h.cfgs = map[c04CfgKey]*certmagic.Config{}
 		}
@@ -263,7 +314,48 @@ func (h *c04h) run(c c04Case, desc map[string]any) {
 
 	var leaf *x509.Certificate
 	var res certmagic.CertificateResource
-	if c.Kind == 2 {
+	// what goes on the wire as the renewal info the decision was taken on (osel..), and what the
+	// harness' mirror classifies (esel..): the same unless updateARI produced the info
+	osel, ows, owe := sel, ws, we
+	esel, ews, ewe := sel, ws, we
+	var refreshCall func() bool
+	var fsel, fws, fwe *int64
+	if c.Refresh != nil {
+		nb, na = floorDiv(nb, c04Sec)*c04Sec, floorDiv(na, c04Sec)*c04Sec
+		fsel, fws, fwe = abs(c.Refresh.Sel), abs(c.Refresh.WS), abs(c.Refresh.WE)
+		var fresh acme.RenewalInfo
+		if fsel != nil {
+			fresh.SelectedTime = time.Unix(0, *fsel)
+		}
+		if fws != nil {
+			fresh.SuggestedWindow.Start = time.Unix(0, *fws)
+		}
+		if fwe != nil {
+			fresh.SuggestedWindow.End = time.Unix(0, *fwe)
+		}
+		fra := time.Unix(0, base+int64(6*time.Hour))
+		fresh.RetryAfter = &fra
+		got, call, err := h.doRefresh(cfg, c, nb, na, ari, fresh)
+		if err != nil {
+			panic(fmt.Errorf("C04 ari-refresh set-up (%s): %w", c.Refresh.Name, err))
+		}
+		refreshCall = call
+		ot := func(t time.Time) *int64 {
+			if t.IsZero() {
+				return nil
+			}
+			return p64(t.UnixNano())
+		}
+		osel, ows, owe = ot(got.SelectedTime), ot(got.SuggestedWindow.Start), ot(got.SuggestedWindow.End)
+		// the harness' expectation: the CA's answer, with the old selected time iff the window is the same
+		eqp := func(a, b *int64) bool { return (a == nil) == (b == nil) && (a == nil || *a == *b) }
+		esel, ews, ewe = fsel, fws, fwe
+		if eqp(fws, ws) && eqp(fwe, we) && sel != nil {
+			esel = sel
+		}
+		desc["refreshed_as_expected"] = eqp(osel, esel) && eqp(ows, ews) && eqp(owe, ewe)
+		h.nRefr++
+	} else if c.Kind == 2 {
 		// a real certificate: whole seconds
 		nb, na = floorDiv(nb, c04Sec)*c04Sec, floorDiv(na, c04Sec)*c04Sec
 		if c.Present {
@@ -287,7 +379,7 @@ func (h *c04h) run(c c04Case, desc map[string]any) {
 	}
 	exp := floorDiv(na, c04Sec)*c04Sec + c04Sec
 	L := exp - nb
-	m := &c04Mirror{nb: nb, exp: exp, interval: interval, disable: c.Disable, sel: sel, ws: ws, we: we,
+	m := &c04Mirror{nb: nb, exp: exp, interval: interval, disable: c.Disable, sel: esel, ws: ews, we: ewe,
 		wc: c04Scale(time.Duration(L), ratio), w20: c04Scale(time.Duration(L), c04RatioAri), w50: c04Scale(time.Duration(L), c04RatioImm)}
 
 	obs := int64(0)
@@ -301,10 +393,12 @@ func (h *c04h) run(c c04Case, desc map[string]any) {
 			}
 		}()
 		var b bool
-		switch c.Kind {
-		case 0:
+		switch {
+		case refreshCall != nil:
+			b = refreshCall()
+		case c.Kind == 0:
 			b = certmagic.VerifCertNeedsRenewal(cfg, leaf, ari, false)
-		case 1:
+		case c.Kind == 1:
 			b = certmagic.VerifCertificateNeedsRenewal(cfg, leaf, ari)
 		default:
 			remainingObs, _, b = certmagic.VerifManagedCertNeedsRenewal(cfg, res)
@@ -350,10 +444,22 @@ func (h *c04h) run(c c04Case, desc map[string]any) {
 			e.Bool(true).Z(*p)
 		}
 	}
-	opt(sel)
-	opt(ws)
-	opt(we)
+	opt(osel)
+	opt(ows)
+	opt(owe)
 	e.Z(m.wc).Z(m.w20).Z(m.w50).Z(t0).Z(t1).Z(obs).Int(class)
+	// ari-refresh: the info that was replaced and the CA's answer
+	if c.Refresh != nil {
+		e.Bool(true)
+		opt(sel)
+		opt(ws)
+		opt(we)
+		opt(fsel)
+		opt(fws)
+		opt(fwe)
+	} else {
+		e.Bool(false)
+	}
 
 	classNames := []string{"compared", "skipped_boundary", "rnd_dependent"}
 	desc["compare"] = classNames[class]
@@ -363,8 +469,21 @@ func (h *c04h) run(c c04Case, desc map[string]any) {
 	nt, _ := desc["decisive"].(bool)
 	ob := map[string]any{"verdict": []string{"wait", "renew", "PANIC"}[obs], "t0": t0, "t1": t1,
 		"windows_ns": []int64{m.wc, m.w20, m.w50}, "expires_unix_ns": exp}
-	if c.Kind == 2 && c.Present {
+	if c.Kind == 2 && c.Present && c.Refresh == nil {
 		ob["remaining_ns"] = int64(remainingObs)
+	}
+	if c.Refresh != nil {
+		offs := func(p *int64) any {
+			if p == nil {
+				return nil
+			}
+			return *p - base
+		}
+		ob["refreshed_info_off_ns"] = map[string]any{"selected": offs(osel), "window_start": offs(ows), "window_end": offs(owe)}
+		ob["expected_info_off_ns"] = map[string]any{"selected": offs(esel), "window_start": offs(ews), "window_end": offs(ewe)}
+		for _, k := range []string{"relation", "position", "variant", "target"} {
+			h.w.Hist(fmt.Sprintf("refresh_%s=%v", k, desc[k]))
+		}
 	}
 	h.w.Add(emit.Case{Desc: desc, In: c, Obs: ob, Wire: e.String(), Nontrivial: nt && class == 0,
 		Key: fmt.Sprint(desc["aim"], desc["side"], desc["delta"], desc["ari"], desc["ratio"], desc["life"], desc["ival"], c.Kind, obs)})
@@ -377,6 +496,148 @@ func (h *c04h) run(c c04Case, desc map[string]any) {
 	if nt && class == 0 {
 		h.w.Hist("decisive_compared")
 	}
+}
+
+// doRefresh builds a managed certificate (real leaf of the harness CA, resource in storage whose
+// IssuerData carries the old renewal info, loaded into the cache the way an application does), lets
+// the issuer double answer `fresh`, runs the real Config.updateARI and returns the renewal info on
+// the copy named by the target together with the real decision function on that copy.
+func (h *c04h) doRefresh(cfg *certmagic.Config, c c04Case, nb, na int64, old, fresh acme.RenewalInfo) (got acme.RenewalInfo, call func() bool, err error) {
+	ctx := context.Background()
+	name, ik, st := c.Refresh.Name, h.ariIss.IssuerKey(), cfg.Storage
+	chain, _, keyPEM, err := h.ca.Leaf(doubles.LeafOpts{Names: []string{name}, NotBefore: time.Unix(0, nb).UTC(), NotAfter: time.Unix(0, na).UTC()})
+	if err != nil {
+		return got, nil, err
+	}
+	old.UniqueIdentifier = "c04." + name
+	fresh.UniqueIdentifier = old.UniqueIdentifier
+	data, err := json.Marshal(acme.Certificate{RenewalInfo: &old})
+	if err != nil {
+		return got, nil, err
+	}
+	meta, err := json.MarshalIndent(certmagic.CertificateResource{SANs: []string{name}, IssuerData: data}, "", "\t")
+	if err != nil {
+		return got, nil, err
+	}
+	for k, v := range map[string][]byte{certmagic.StorageKeys.SiteCert(ik, name): chain, certmagic.StorageKeys.SitePrivateKey(ik, name): keyPEM, certmagic.StorageKeys.SiteMeta(ik, name): meta} {
+		if err := st.Store(ctx, k, v); err != nil {
+			return got, nil, err
+		}
+	}
+	cert, err := cfg.CacheManagedCertificate(ctx, name)
+	if err != nil {
+		return got, nil, err
+	}
+	defer h.cache.Remove([]string{cert.Hash()})
+	before := h.ariIss.set(fresh)
+	updated, _, err := certmagic.VerifARIUpdate(ctx, cfg, cert)
+	if err != nil {
+		return got, nil, err
+	}
+	if n := h.ariIss.count(); n != before+1 {
+		return got, nil, fmt.Errorf("the issuer was asked %d times for renewal info, expected once", n-before)
+	}
+	switch c.Refresh.Target {
+	case 0:
+		return certmagic.VerifARIOf(updated), func() bool { return updated.NeedsRenewal(cfg) }, nil
+	case 1:
+		entry, ok := certmagic.VerifARICacheEntry(h.cache, cert.Hash())
+		if !ok {
+			return got, nil, errors.New("certificate no longer in the cache")
+		}
+		return certmagic.VerifARIOf(entry), func() bool { return entry.NeedsRenewal(cfg) }, nil
+	}
+	var res certmagic.CertificateResource
+	mb, err := st.Load(ctx, certmagic.StorageKeys.SiteMeta(ik, name))
+	if err != nil {
+		return got, nil, err
+	}
+	if err := json.Unmarshal(mb, &res); err != nil {
+		return got, nil, err
+	}
+	if res.CertificatePEM, err = st.Load(ctx, certmagic.StorageKeys.SiteCert(ik, name)); err != nil {
+		return got, nil, err
+	}
+	var ad acme.Certificate
+	if err := json.Unmarshal(res.IssuerData, &ad); err != nil {
+		return got, nil, err
+	}
+	if ad.RenewalInfo != nil {
+		got = *ad.RenewalInfo
+	}
+	return got, func() bool { _, _, b := certmagic.VerifManagedCertNeedsRenewal(cfg, res); return b }, nil
+}
+
+var c04RefreshRelations = []string{"same", "later", "earlier", "widened", "narrowed", "zero"}
+var c04RefreshPositions = []string{"before", "inside", "after"}
+var c04RefreshVariants = []string{"old-selected-early", "old-selected-late", "fresh-selected", "old-unselected"}
+
+// refreshCase: a certificate 10 days into 90 (or 5 into 47) whose old renewal info {selected time S_old in
+// window W_old, RetryAfter long past} is refreshed with a window W_new that stands in `relation` to W_old,
+// the clock being before / inside / after W_new. jitter (ns, < 1 h) moves every instant of the windows.
+func (h *c04h) refreshCase(idx int, relation, position, variant string, target int, jitter int64) (c04Case, map[string]any, bool) {
+	day, hour := int64(24*time.Hour), int64(time.Hour)
+	c := c04Case{Present: true, Kind: 1, RAFix: true, RA: p64(-26 * hour)}
+	if target == 2 {
+		c.Kind = 2
+	}
+	c.NBOff, c.NAOff, c.Interval, c.RN, c.RD = -10*day, 80*day, int64(10*time.Minute), 0, 1
+	if idx%2 == 1 {
+		c.NBOff, c.NAOff, c.Interval, c.RN, c.RD = -5*day, 42*day, hour, 1, 3
+	}
+	var a, b int64 // W_new
+	switch position {
+	case "before":
+		a, b = 20*day, 22*day
+	case "inside":
+		a, b = -1*day, 3*day
+	default:
+		a, b = -4*day-12*hour, -2*day
+	}
+	a, b = a+jitter+123456789, b+jitter+987654321
+	w := b - a
+	g := hour
+	if variant == "old-selected-late" {
+		g = 23 * day
+	}
+	var oa, ob int64 // W_old
+	switch relation {
+	case "same", "zero":
+		oa, ob = a, b
+	case "later": // the CA moved the window later: W_new starts after everything in W_old
+		oa, ob = a-w-g, b-w-g
+	case "earlier":
+		oa, ob = a+w+g, b+w+g
+	case "widened":
+		oa, ob = a+w/4, b-w/4
+	case "narrowed":
+		oa, ob = a-w/2, b+w/2
+	}
+	c.WS, c.WE = p64(oa), p64(ob)
+	ow := ob - oa
+	const off = int64(7*time.Minute + 13*time.Second + 500)
+	switch variant {
+	case "old-selected-early", "fresh-selected":
+		c.Sel = p64(oa + ow/8 + off)
+	case "old-selected-late":
+		c.Sel = p64(ob - ow/8 + off)
+	}
+	fr := &c04Refresh{Target: target, Name: fmt.Sprintf("r%d-t%d.c04.example", idx, target)}
+	if relation != "zero" {
+		fr.WS, fr.WE = p64(a), p64(b)
+		if variant == "fresh-selected" {
+			fr.Sel = p64(a + w/2 + off)
+		}
+	} else if variant == "fresh-selected" {
+		return c, nil, false // a selected time without a window is not something a CA's answer leads to
+	}
+	c.Refresh = fr
+	c.Base = time.Now().UnixNano()
+	desc := map[string]any{"class": "ari-refresh", "relation": relation, "position": position, "variant": variant,
+		"target": []string{"returned-certificate", "cache-entry", "stored-resource"}[target],
+		"aim": "ari-refresh/" + relation, "side": position, "delta": variant, "ari": "refreshed",
+		"ratio": fmt.Sprintf("%d/%d", c.RN, c.RD), "life": lifeBucket(c.NAOff - c.NBOff), "ival": ivalBucket(c.Interval), "decisive": true}
+	return c, desc, true
 }
 
 // ---- generator ----
@@ -887,6 +1148,7 @@ func runC04(tier string, seed int64, outdir string, replay string) error {
 		return err
 	}
 	h.pub = &k.PublicKey
+	h.ariIss = &c04AriIssuer{}
 
 	finish := func() {
 		w.Meta.Oracles = append(w.Meta.Oracles, emit.OracleCheck{
@@ -894,7 +1156,7 @@ func runC04(tier string, seed int64, outdir string, replay string) error {
 			OK:     len(h.orcBad) == 0,
 			Detail: fmt.Sprint(h.orcBad)})
 		w.Meta.Rule = "aimed cases whose aimed clause decides the verdict (the model's verdict just before and just after that clause's threshold differs), with the verdict independent of the clock position within [t0,t1] and of the random draw, so that model and implementation are compared"
-		w.Meta.Extra = map[string]any{"compared": h.cmp, "skipped_boundary": h.skipB, "rnd_dependent": h.skipR}
+		w.Meta.Extra = map[string]any{"compared": h.cmp, "skipped_boundary": h.skipB, "rnd_dependent": h.skipR, "ari_refresh_cases": h.nRefr}
 		w.Meta.Notes = append(w.Meta.Notes, "the clock is real: every instant is an offset from time.Now() at case construction; the call is bracketed by t0/t1 and the model is evaluated at both")
 		w.Close()
 	}
@@ -985,6 +1247,36 @@ func runC04(tier string, seed int64, outdir string, replay string) error {
 		c := c04Case{Present: true, RN: 1, RD: 3, Interval: int64(10 * time.Minute), Base: time.Now().UnixNano()}
 		c.NBOff, c.NAOff = 10*day, off
 		h.run(c, map[string]any{"class": "out-of-domain-inverted-validity", "aim": "corpus"})
+	}
+
+	// ---- ari-refresh: how the renewal info a certificate carries is produced (Config.updateARI) ----
+	{
+		idx := 0
+		for _, rel := range c04RefreshRelations {
+			for _, pos := range c04RefreshPositions {
+				for _, v := range c04RefreshVariants {
+					if v == "old-unselected" && pos == "after" {
+						continue
+					}
+					idx++
+					for target := 0; target < 3; target++ {
+						if c, desc, ok := h.refreshCase(idx, rel, pos, v, target, 0); ok {
+							h.run(c, desc)
+						}
+					}
+				}
+			}
+		}
+		if tier == "thorough" {
+			for i := 0; i < 3000; i++ {
+				idx++
+				rel, pos := c04RefreshRelations[h.r.Intn(len(c04RefreshRelations))], c04RefreshPositions[h.r.Intn(len(c04RefreshPositions))]
+				v := c04RefreshVariants[h.r.Intn(len(c04RefreshVariants))]
+				if c, desc, ok := h.refreshCase(idx, rel, pos, v, h.r.Intn(3), h.r.Int63n(int64(50*time.Minute))); ok {
+					h.run(c, desc)
+				}
+			}
+		}
 	}
 
 	nAimed, nRandom := 6000, 2000
